@@ -22,7 +22,7 @@
     attributes only under `order`, nothing is added or removed. *)
 From Coq Require Import String.
 From Coq Require Import List Ascii ZArith Bool Lia.
-From CGV Require Import Base.PyBase Base.PyVal Base.NxGraph Gen.HydroGen Gen.AromGen Hydro.Hydrogens.
+From CGV Require Import Base.PyBase Base.PyVal Base.NxGraph Gen.HydroGen Gen.AromGen Hydro.Hydrogens Hydro.HydroDefs.
 Import ListNotations.
 Open Scope Z_scope.
 
@@ -64,8 +64,7 @@ Fixpoint nodupz (l : list Z) : bool := match l with [] => true | x :: r => negb 
 (** `order == 0` / `order == 2` (None when the attribute is missing) *)
 Definition order_is (h : Z) (d : attrs) : bool :=
   match aget k_order d with Some v => match half_of_num v with Ok z => Z.eqb z h | Err _ => false end | None => false end.
-Definition arom_flag (g : graph) (k : Z) : bool :=
-  match gfind k g with Some n => truthy (getd k_arom (na n) (VBool false)) | None => false end.
+Definition arom_flag (g : graph) (k : Z) : bool := arom_of g k.
 Definition star_node (g : graph) (k : Z) : bool :=
   match gfind k g with Some n => is_star (na n) | None => false end.
 
